@@ -224,6 +224,276 @@ theorem C13_recv_delivery (c : C) (p : Pkt) :
     (∀ (t : TAR) topic a k, lookup k (t.insertOrUpdate topic a).m = if k = a then some topic else lookup k t.m) :=
   ⟨prV5Publish_tar c p, prV5Publish_recvs c p, TAR.insertOrUpdate_lookup⟩
 
+/-! ## 5. the two alias monitors of the driver are theorems of the model
+
+`unbound_alias_accepted` (sender side) and `delivered_under_wrong_topic` (receiver side). -/
+
+/-- the monitor's "accepted": no error event, and a PUBLISH was requested for sending or the store grew -/
+def PubAccepted (s : St) (c' : C) : Prop :=
+  Mon.hasError c'.ev = false ∧
+  ((c'.ev.any fun e => match e with | .send q _ => decide (q.kind = Kind.publish) | _ => false) = true ∨
+    c'.s.store.length > s.store.length)
+
+theorem hasError_err' (c : C) (e : Nat) : Mon.hasError (c.err e).ev = true := by
+  simp [Mon.hasError, C.err, C.push]
+
+theorem releaseId_ev' (c : C) (id : Nat) : (releaseId c id).ev = c.ev := by
+  unfold releaseId; simp only []; split <;> rfl
+
+theorem releaseIfUsed_hasError (c : C) (id : Nat) (h : Mon.hasError c.ev = true) :
+    Mon.hasError (releaseIfUsed c id).ev = true := by
+  unfold releaseIfUsed
+  split
+  · simp only [C.push, releaseId_ev']; simp [Mon.hasError] at h ⊢; exact h
+  · exact h
+
+theorem pubRefuseCleanup_hasError (c : C) (pid : Option Nat) (h : Mon.hasError c.ev = true) :
+    Mon.hasError (pubRefuseCleanup c pid).ev = true := by
+  unfold pubRefuseCleanup
+  split
+  · exact h
+  · split
+    · simp only [C.push, releaseId_ev']; simp [Mon.hasError] at h ⊢; exact h
+    · exact h
+
+theorem vta_fst_of_tas (c c' : C) (ao : Option Nat) (h : c'.s.tas = c.s.tas) :
+    (validateTopicAlias c' ao).1 = (validateTopicAlias c ao).1 := by
+  unfold validateTopicAlias validateTopicAliasRange
+  cases ao with
+  | none => rfl
+  | some a => simp only [h]; cases c.s.tas <;> simp <;> split <;> rfl
+
+theorem psV5PublishAlias_unbound (c : C) (p : Pkt) (rel : Option Nat) (ht : p.topic = [])
+    (hn : (validateTopicAlias c p.alias).1 = none) :
+    Mon.hasError (psV5PublishAlias c p rel false).ev = true := by
+  unfold psV5PublishAlias
+  simp only [ht, List.isEmpty_nil, if_true, Bool.false_eq_true, if_false, hn, Option.isNone_none, Bool.not_false,
+    and_self]
+  split <;> split <;> exact pubRefuseCleanup_hasError _ _ (hasError_err' _ _)
+
+theorem psV5Publish_unbound (c : C) (p : Pkt) (ht : p.topic = [])
+    (hn : (validateTopicAlias c p.alias).1 = none) (hev : c.ev = []) :
+    ¬ PubAccepted c.s (psV5Publish c p) := by
+  unfold psV5Publish
+  have key : ∀ c' : C, Mon.hasError c'.ev = true → ¬ PubAccepted c.s c' := fun c' h hp => by
+    have := hp.1; rw [h] at this; cases this
+  split
+  · split
+    · exact key _ (releaseIfUsed_hasError _ _ (hasError_err' _ _))
+    · exact key _ (hasError_err' _ _)
+  split
+  · split
+    · -- panic site: no event, no change
+      intro hp
+      rcases hp.2 with h | h
+      · simp [C.setPanic, hev] at h
+      · simp [C.setPanic] at h
+    · rename_i id _
+      split
+      · exact key _ (releaseIfUsed_hasError _ _ (hasError_err' _ _))
+      split
+      · exact key _ (hasError_err' _ _)
+      split
+      · simp only [ht, List.isEmpty_nil, if_true, hn]
+        exact key _ (releaseIfUsed_hasError _ _ (hasError_err' _ _))
+      · apply key
+        apply psV5PublishAlias_unbound _ _ _ ht
+        rw [← hn]
+        apply vta_fst_of_tas
+        split <;> rfl
+  · split
+    · exact key _ (hasError_err' _ _)
+    · exact key _ (psV5PublishAlias_unbound _ _ _ ht hn)
+
+
+/-! receiver side -/
+
+/-- every binding of the model's receive table is a binding of the ghost table -/
+def TarAgree (s : St) (tbl : Mon.PeerTable) : Prop :=
+  ∀ a t topic, s.tar = some t → lookup a t.m = some topic → Mon.peerLookup a tbl = some topic
+
+/-- the monitor's update of its receiver-side ghost table after a `recv` of the parsed v5.0 PUBLISH `p`
+    whose events were `evs` -/
+def inTblStep (tbl : Mon.PeerTable) (p : Pkt) (evs : List Ev) : Mon.PeerTable :=
+  match p.alias with
+  | some a =>
+    if !p.topic.isEmpty ∧ (!Mon.hasError evs ∨
+        evs.any (fun e => match e with | .recv q => decide (q.kind = Kind.publish) | _ => false)) then
+      (a, p.topic) :: tbl.filter (fun kv => kv.1 ≠ a)
+    else tbl
+  | none => tbl
+
+/-- the four outcomes of the alias stage of `process_recv_v5_0_publish` -/
+theorem aliasStage_cases (c : C) (p : Pkt) :
+    (prV5PublishAlias c p = (handleV5Error c eAliasInvalid, none)) ∨
+    (p.alias = none ∧ p.topic ≠ [] ∧ prV5PublishAlias c p = (c, some p)) ∨
+    (∃ a t topic, p.topic = [] ∧ p.alias = some a ∧ c.s.tar = some t ∧ lookup a t.m = some topic ∧
+      prV5PublishAlias c p = (c, some { p with topic := topic, extracted := true })) ∨
+    (∃ a t, p.topic ≠ [] ∧ p.alias = some a ∧ c.s.tar = some t ∧
+      prV5PublishAlias c p = ({ c with s := { c.s with tar := some (t.insertOrUpdate p.topic a) } }, some p)) := by
+  have bad : ∀ {x : C × Option Pkt}, x = (handleV5Error c eAliasInvalid, none) → x = (handleV5Error c eAliasInvalid, none) :=
+    fun h => h
+  by_cases ht : p.topic = []
+  · rcases Option.eq_none_or_eq_some p.alias with ha | ⟨a, ha⟩
+    · exact .inl (bad (prvAlias_empty_noalias c p ht ha))
+    · rcases Option.eq_none_or_eq_some c.s.tar with htar | ⟨t, htar⟩
+      · exact .inl (bad (prvAlias_bad c p a ha (by intro t h; rw [htar] at h; cases h)))
+      · by_cases hb : a = 0 ∨ a > t.max
+        · exact .inl (bad (prvAlias_bad c p a ha (by intro t' h'; rw [htar] at h'; cases h'; exact hb)))
+        · rcases Option.eq_none_or_eq_some (lookup a t.m) with hl | ⟨topic, hl⟩
+          · exact .inl (bad (prvAlias_empty_unbound c p a t ht ha htar hl))
+          · rcases Bool.eq_false_or_eq_true (hasWildcard topic) with hw | hw
+            · exact .inl (bad (prvAlias_empty_wildcard c p a t topic ht ha htar hl hw))
+            · exact .inr (.inr (.inl ⟨a, t, topic, ht, ha, htar, hl,
+                prvAlias_empty_bound c p a t topic ht ha htar (by omega) (by omega) hl hw⟩))
+  · rcases Option.eq_none_or_eq_some p.alias with ha | ⟨a, ha⟩
+    · exact .inr (.inl ⟨ha, ht, prvAlias_plain c p ht ha⟩)
+    · rcases Option.eq_none_or_eq_some c.s.tar with htar | ⟨t, htar⟩
+      · exact .inl (bad (prvAlias_bad c p a ha (by intro t h; rw [htar] at h; cases h)))
+      · by_cases hb : a = 0 ∨ a > t.max
+        · exact .inl (bad (prvAlias_bad c p a ha (by intro t' h'; rw [htar] at h'; cases h'; exact hb)))
+        · exact .inr (.inr (.inr ⟨a, t, ht, ha, htar, prvAlias_register c p a t ht ha htar (by omega) (by omega)⟩))
+
+/-- **delivered under the ghost's topic**: an alias-only PUBLISH that the handler delivers
+    (`topic_name_extracted`) carries exactly the topic the ghost table binds its alias to -/
+theorem delivered_topic (c : C) (p : Pkt) (tbl : Mon.PeerTable) (hev : c.ev = []) (hx : p.extracted = false)
+    (hagree : TarAgree c.s tbl) :
+    ∀ q ∈ recvs (prV5Publish c (.ok p)).ev, q.extracted = true →
+      ∃ a, q.alias = some a ∧ Mon.peerLookup a tbl = some q.topic := by
+  intro q hq hqx
+  rcases prV5Publish_recvs c p with h | ⟨q', h1, h2⟩
+  · rw [h, hev] at hq; simp [recvs] at hq
+  · rw [h2, hev] at hq
+    simp [recvs] at hq
+    subst hq
+    rcases aliasStage_cases c p with h | ⟨_, _, h⟩ | ⟨a, t, topic, ht, ha, htar, hl, h⟩ | ⟨a, t, _, _, _, h⟩
+    · rw [h] at h1; cases h1
+    · rw [h] at h1; simp at h1; subst h1; rw [hx] at hqx; cases hqx
+    · rw [h] at h1; simp at h1; subst h1
+      exact ⟨a, ha, hagree a t topic htar hl⟩
+    · rw [h] at h1; simp at h1; subst h1; rw [hx] at hqx; cases hqx
+
+theorem any_recv_of_recvs_nil {l : List Ev} (h : recvs l = []) :
+    (l.any fun e => match e with | .recv q => decide (q.kind = Kind.publish) | _ => false) = false := by
+  induction l with
+  | nil => rfl
+  | cons e r ih =>
+    cases e <;> simp_all [recvs]
+
+theorem hasError_handleV5Error (c : C) (e : Nat) : Mon.hasError (handleV5Error c e).ev = true := by
+  unfold handleV5Error; exact hasError_err' _ _
+
+/-- the ghost keeps containing the model's receive table — provided the PUBLISH was accepted (no error
+    event) or delivered; the excluded case is a PUBLISH that registers a binding and is then
+    rejected (Receive Maximum exceeded) -/
+theorem tarAgree_step (c : C) (p : Pkt) (tbl : Mon.PeerTable) (hev : c.ev = []) (hagree : TarAgree c.s tbl)
+    (hacc : Mon.hasError (prV5Publish c (.ok p)).ev = false ∨
+      ((prV5Publish c (.ok p)).ev.any fun e => match e with | .recv q => decide (q.kind = Kind.publish) | _ => false) = true) :
+    TarAgree (prV5Publish c (.ok p)).s (inTblStep tbl p (prV5Publish c (.ok p)).ev) := by
+  intro k t' topic' htar' hl'
+  rw [prV5Publish_tar] at htar'
+  rcases aliasStage_cases c p with h | ⟨ha, _, h⟩ | ⟨a, t, topic, ht, ha, htar, hl, h⟩ | ⟨a, t, ht, ha, htar, h⟩
+  · -- alias invalid: error, nothing delivered, nothing changes
+    have e : prV5Publish c (.ok p) = handleV5Error c eAliasInvalid := by
+      unfold prV5Publish; simp only [h]
+    rw [h] at htar'
+    simp only [handleV5Error_tar] at htar'
+    have h1 : Mon.hasError (prV5Publish c (.ok p)).ev = true := by rw [e]; exact hasError_handleV5Error _ _
+    have h2 := any_recv_of_recvs_nil (l := (prV5Publish c (.ok p)).ev) (by rw [e, handleV5Error_recvs, hev]; rfl)
+    have : inTblStep tbl p (prV5Publish c (.ok p)).ev = tbl := by
+      unfold inTblStep; split
+      · simp [h1, h2]
+      · rfl
+    rw [this]; exact hagree k t' topic' htar' hl'
+  · rw [h] at htar'
+    have : inTblStep tbl p (prV5Publish c (.ok p)).ev = tbl := by unfold inTblStep; simp [ha]
+    rw [this]; exact hagree k t' topic' htar' hl'
+  · rw [h] at htar'
+    have : inTblStep tbl p (prV5Publish c (.ok p)).ev = tbl := by unfold inTblStep; simp [ha, ht]
+    rw [this]; exact hagree k t' topic' htar' hl'
+  · rw [h] at htar'
+    simp only [Option.some.injEq] at htar'
+    subst htar'
+    rw [TAR.insertOrUpdate_lookup] at hl'
+    have hne : p.topic.isEmpty = false := by simpa using ht
+    have : inTblStep tbl p (prV5Publish c (.ok p)).ev = (a, p.topic) :: tbl.filter (fun kv => kv.1 ≠ a) := by
+      unfold inTblStep
+      simp only [ha, hne, Bool.not_false, true_and]
+      rw [if_pos]
+      rcases hacc with h1 | h1
+      · left; simp [h1]
+      · right; exact h1
+    rw [this, peerLookup_cons_filter]
+    split at hl'
+    · rename_i hk; simp [hk]; simpa using hl'
+    · rename_i hk; simp [hk]; exact hagree k t topic' htar hl'
+
+
+theorem refuseSend_hasError (c : C) (e : Nat) (p : Pkt) : Mon.hasError (refuseSend c e p).ev = true := by
+  unfold refuseSend
+  split
+  · exact releaseIfUsed_hasError _ _ (hasError_err' _ _)
+  · exact hasError_err' _ _
+
+/-- **the sender-side "unbound alias" monitor is a theorem of the model** (driver monitor
+    `VIOL sig=C13 unbound_alias_accepted@<site>`).  A v5.0 PUBLISH with an empty topic handed to
+    `send`, whose alias the ghost receiver cannot resolve (`Mon.peerResolve peer p = none`: no
+    alias, or an alias no PUBLISH emitted on this connection bound), is never accepted: the call
+    reports an error — or, for a QoS>0 PUBLISH without identifier (the documented panic site), does
+    nothing at all — so no PUBLISH is requested for sending and the store does not grow.  For every
+    configuration and every state of the invariant class (`AliasInv`: the sender's table is contained
+    in the ghost receiver's). -/
+theorem C13_unbound_alias_not_accepted (cfg : Cfg) (s : St) (p : Pkt) (peer : Mon.PeerTable)
+    (hinv : AliasInv s peer) (hk : p.kind = .publish) (h5 : p.ver = 5) (ht : p.topic = [])
+    (hu : Mon.peerResolve peer p = none) :
+    ¬ PubAccepted s (step cfg s (.send p)) := by
+  have key : ∀ c' : C, Mon.hasError c'.ev = true → ¬ PubAccepted s c' := fun c' h hp => by
+    have := hp.1; rw [h] at this; cases this
+  have hn : (validateTopicAlias { cfg := cfg, s := s } p.alias).1 = none := by
+    rcases Option.eq_none_or_eq_some (validateTopicAlias { cfg := cfg, s := s } p.alias).1 with h | ⟨tp, h⟩
+    · exact h
+    · exfalso
+      obtain ⟨a, ha, hl⟩ := (validateTopicAlias_spec { cfg := cfg, s := s } p.alias).2.2.2.2 tp h
+      have := hinv.agree a tp hl
+      simp [Mon.peerResolve, ht, ha, this] at hu
+  simp only [step, send]
+  split
+  · exact key _ (refuseSend_hasError _ _ _)
+  split
+  · exact key _ (refuseSend_hasError _ _ _)
+  · have h54 : ¬ p.ver = 4 := by omega
+    simp only [processSend, h54, if_false, hk]
+    exact psV5Publish_unbound { cfg := cfg, s := s } p ht hn rfl
+
+/-- a table without bindings agrees with every ghost: the situation after `notify_closed`, after a
+    CONNECT sent / received (`initConn`) and after the Topic Alias Maximum of the CONNECT / CONNACK
+    we send created a fresh table -/
+theorem TarAgree.of_empty {s : St} (h : s.tar = none ∨ ∃ t, s.tar = some t ∧ t.m = []) (tbl : Mon.PeerTable) :
+    TarAgree s tbl := by
+  intro a t topic ht hl
+  rcases h with h | ⟨t', h, hm⟩
+  · rw [h] at ht; cases ht
+  · rw [h] at ht; cases ht; rw [hm] at hl; simp [lookup] at hl
+
+/-- **receiver-side ghost table** (driver monitor `VIOL sig=C13 delivered_under_wrong_topic@<site>`):
+    a delivered alias-only PUBLISH (`topic_name_extracted`) carries exactly the topic the ghost table —
+    the bindings the peer announced on this connection — has for its alias.  `hagree`: the model's
+    receive table is contained in the ghost (`TarAgree`; kept by `C13_recv_ghost_step`, established by
+    `TarAgree.of_empty`). -/
+theorem C13_delivered_under_ghost_topic (c : C) (p : Pkt) (tbl : Mon.PeerTable) (hev : c.ev = [])
+    (hx : p.extracted = false) (hagree : TarAgree c.s tbl) :
+    ∀ q ∈ recvs (prV5Publish c (.ok p)).ev, q.extracted = true →
+      ∃ a, q.alias = some a ∧ Mon.peerLookup a tbl = some q.topic :=
+  delivered_topic c p tbl hev hx hagree
+
+/-- the ghost update of the monitor (`inTblStep`: a PUBLISH with non-empty topic and alias `a` that
+    is delivered or produces no error binds `a ↦ topic`) keeps `TarAgree` -/
+theorem C13_recv_ghost_step (c : C) (p : Pkt) (tbl : Mon.PeerTable) (hev : c.ev = []) (hagree : TarAgree c.s tbl)
+    (hacc : Mon.hasError (prV5Publish c (.ok p)).ev = false ∨
+      ((prV5Publish c (.ok p)).ev.any fun e => match e with | .recv q => decide (q.kind = Kind.publish) | _ => false) = true) :
+    TarAgree (prV5Publish c (.ok p)).s (inTblStep tbl p (prV5Publish c (.ok p)).ev) :=
+  tarAgree_step c p tbl hev hagree hacc
+
 /-! ## non-vacuity: concrete states and inputs satisfying the hypotheses -/
 namespace C13Ex
 
@@ -273,6 +543,34 @@ example : pubUse.topic = [] ∧ cR.s.tar = some { max := 3, m := [(2, [120])] } 
     cR.s.status = .connected ∧ RecvAliasBad cR.s 4 := by
   refine ⟨rfl, rfl, rfl, rfl, by decide, ?_⟩
   intro t ht; cases ht; decide
+
+/-- `C13_unbound_alias_not_accepted`: alias 2 was never bound on this connection; the call is refused -/
+example : AliasInv s1 peer1 ∧ Mon.peerResolve peer1 { pubUse with alias := some 2 } = none ∧
+    (step cfg s1 (.send { pubUse with alias := some 2 })).ev = [.error eNotAllowed] :=
+  ⟨inv1, by decide, by decide⟩
+/-- `C13_delivered_under_ghost_topic` / `C13_recv_ghost_step`: the ghost holds the binding 2 ↦ "x" the
+    model's table has; the alias-only PUBLISH is delivered under "x" -/
+def tblR : Mon.PeerTable := [(2, [120])]
+theorem agreeR : TarAgree cR.s tblR := by
+  intro a t topic ht hl
+  have : cR.s.tar = some { max := 3, m := [(2, [120])] } := rfl
+  rw [this] at ht; cases ht
+  simp only [lookup] at hl
+  split at hl
+  · rename_i h; subst h; simpa [tblR, Mon.peerLookup] using hl
+  · cases hl
+example : cR.ev = [] ∧ ({ pubUse with alias := some 2 } : Pkt).extracted = false ∧
+    recvs (prV5Publish cR (.ok { pubUse with alias := some 2 })).ev =
+      [{ pubUse with alias := some 2, topic := [120], extracted := true }] := by decide
+/-- the case `C13_recv_ghost_step` excludes is real (model = implementation): a PUBLISH that binds
+    alias 1 and is then rejected with Receive Maximum exceeded leaves the binding in the receive
+    table although nothing was delivered — the connection is being torn down (DISCONNECT 0x93 +
+    close are requested), the table dies with `notify_closed` -/
+def cRM : C := { cR with s := { cR.s with recvMax := some 1, publishRecv := [7] } }
+def pubOver : Pkt := { ver := 5, kind := .publish, qos := 1, pid := some 9, topic := [98], alias := some 1 }
+example : Mon.hasError (prV5Publish cRM (.ok pubOver)).ev = true ∧ recvs (prV5Publish cRM (.ok pubOver)).ev = [] ∧
+    (prV5Publish cRM (.ok pubOver)).s.tar = some { max := 3, m := [(2, [120]), (1, [98])] } ∧
+    (prV5Publish cRM (.ok pubOver)).s.status = .disconnected := by decide
 
 end C13Ex
 
